@@ -28,4 +28,5 @@ var (
 	RunGuarded  = core.RunGuarded
 	ParseLedger = core.ParseLedger
 	NewStats    = core.NewStats
+	Hash64      = core.Hash64
 )
